@@ -167,19 +167,24 @@ def ldata_writer(chk: Check, repo: Repo) -> None:
         if isinstance(e, ast.BinOp) and isinstance(e.op, ast.BitOr):
             return or_terms(e.left) + or_terms(e.right)
         return [e]
-    for control in (False, True):
-        for payload in (None, "apci"):
-            for n in ((0, 1, 15, 16, 254, 255) if (not control and payload) else (0,)):
-                def cm(c: ast.Call, env, n=n):
+    own = Obj("TPCI", "own")
+    for control, payload, fits in ((c_, p_, f_) for c_ in (False, True) for p_ in (None, "apci") for f_ in ("same", "other", "refused")):
+            # `fits`: what the receiver's decision tree (TPCI.resolve) makes of this PDU's octet for this destination -
+            # the same PDU, another one (eg. T_Data_Group to an individual address reads as T_Data_Individual, a sequence
+            # number beyond 15 wraps), or nothing (eg. T_Connect to a group address)
+            for n in ((0, 1, 15, 16, 254, 255) if (not control and payload and fits == "same") else (0,)):
+                def cm(c: ast.Call, env, n=n, fits=fits):
                     nm = call_name(c)
                     if nm == "self.payload.calculated_length":
                         return [Outcome(None, n)]
                     if nm == "self.payload.to_knx":
                         return [Outcome(None, Obj("bytearray", "apdu"))]
+                    if nm == "TPCI.resolve":
+                        return [Outcome(None, own if fits == "same" else (Obj("TPCI", "other") if fits == "other" else Raise("ConversionError")))]
                     return None
                 am = AbsMachine(cfg, exc, cm, hook)
                 am.isinstance_fn = class_isinstance(repo)
-                env = {"self.tpci.control": control, "self.payload": Obj("GroupValueWrite", "p") if payload else None}
+                env = {"self.tpci": own, "self.tpci.control": control, "self.payload": Obj("GroupValueWrite", "p") if payload else None}
                 paths = Explorer(cfg, repo, am.step).run(cfg.entry, [], env)
                 got = set()
                 for p in paths:
@@ -199,7 +204,11 @@ def ldata_writer(chk: Check, repo: Repo) -> None:
                                 elif width == 1:
                                     nl = am.ev(recv, p.env, {})
                     got.add((p.end_kind if p.end_kind != "raise" else f"raise {p.env.get('#raised')}", ft.name if isinstance(ft, EnumMember) else None, nl if p.end_kind == "exit" else None))
-                if control:
+                if fits != "same":
+                    want = {("raise ConversionError", None, None)}  # what can not come back as itself is not sent
+                elif control and payload:
+                    want = {("raise ConversionError", None, None)}  # a control TPDU has no room for a payload - dropping it silently is not "the same payload"
+                elif control:
                     want = {("exit", "STANDARD", 0)}
                 elif not payload:
                     want = {("raise ConversionError", None, None)}
@@ -207,7 +216,7 @@ def ldata_writer(chk: Check, repo: Repo) -> None:
                     want = {("raise ConversionError", None, None)}
                 else:
                     want = {("exit", "STANDARD" if n <= std else "EXTENDED", n)}
-                chk.ob("frame-type-cell", fi.site(), got == want, f"control={control} payload={'present' if payload else 'None'} npdu_len={n}: code {sorted(map(str, got))}; reference {sorted(map(str, want))}", key=f"ft|{control}|{payload}|{n}" + ("" if got == want else f"|{sorted(map(str, got))}"))
+                chk.ob("frame-type-cell", fi.site(), got == want, f"control={control} payload={'present' if payload else 'None'} receiver reads the TPCI as {fits} npdu_len={n}: code {sorted(map(str, got))}; reference {sorted(map(str, want))}", key=f"ft|{fits}|{control}|{payload}|{n}" + ("" if got == want else f"|{sorted(map(str, got))}"))
     # TPCI merge: unconditional inside the data branch
     mf = cfg.must_facts()
     tp_name = ret_parts[-1].id if isinstance(ret_parts[-1], ast.Name) else "?"
@@ -215,7 +224,11 @@ def ldata_writer(chk: Check, repo: Repo) -> None:
     ok = len(merges) == 1
     extra = []
     if ok:
+        ret_nodes = [n for n in cfg.nodes if n.ast is rets0[0]]
+        always = set(mf[ret_nodes[0].id]) if ret_nodes else set()  # gates every frame passes, not conditions of the merge
         for t, v in mf[merges[0].id]:
+            if (t, v) in always:
+                continue
             if t == "self.tpci.control" and v is False:
                 continue
             if t.startswith("isinstance(self.payload") and v is True:
@@ -293,6 +306,11 @@ def ldata_reader(chk: Check, repo: Repo) -> None:
         len_ok = (f"len({apdu}) != {raw}[6] + 1", False) in facts
         eff_ok = (f"CEMIFlags.from_knx({ctl}).frame_format is not CEMIFrameFormat.STANDARD", False) in facts
         is_ctrl = isinstance(r.ast.value, ast.Call) and any(k.arg == "payload" and isinstance(k.value, ast.Constant) for k in r.ast.value.keywords)
+        # a length the writer refuses (> MAX_NPDU_LENGTH: FFh is reserved) is refused by the reader too - else a received
+        # frame (and the telegram made of it) cannot be serialised again
+        res_ok = any(v is want_v and t in (f"{raw}[6] {op} MAX_NPDU_LENGTH",) for t, v in facts for op, want_v in ((">", False), ("<=", True))) or \
+                 any(v is want_v and t in (f"MAX_NPDU_LENGTH {op} {raw}[6]",) for t, v in facts for op, want_v in (("<", False), (">=", True)))
+        chk.ob("reader-refuses-the-reserved-length", fi.site(r.ast), res_ok, f"a frame is returned only when its length octet is at most MAX_NPDU_LENGTH ({res_ok})", key=f"reader-reserved-len|{'control' if is_ctrl else 'data'}")
         chk.ob("reader-gates", fi.site(r.ast), len_ok and eff_ok, f"a frame is returned only when the length octet matches ({len_ok}) and the extended frame format is STANDARD ({eff_ok})", key=f"reader-gates|{'control' if is_ctrl else 'data'}")
 
 
@@ -301,5 +319,7 @@ def run(chk: Check, repo: Repo) -> None:
     flags_roundtrip(chk, repo)
     ldata_writer(chk, repo)
     ldata_reader(chk, repo)
+    from .apci_common import received_pdus_can_be_serialised_again
+    received_pdus_can_be_serialised_again(chk, repo)
     chk.rule("E8 mask/enum constant consistency; E2 bit-record evaluation of CEMIFlags.from_knx -> to_knx over a symbolic control field; E7 table of CEMILData.to_knx over NPDU-length cells; structural writer/reader layout agreement")
     chk.assume("APDU octets beyond the TPCI merge round-trip per C05; addresses per C01; received frames carry the reserved control bit 14 as 0 (it is not kept)")
